@@ -34,3 +34,10 @@ def child_defaults() -> dict:
 
 def parent_defaults() -> dict:
     return {"count": 0, "name": "p", "tags": [], "meta": {}}
+
+
+class Unrelated(BaseModel):
+    """neither the store's state type nor a parent of it: set_state must reject it"""
+
+    x: int = 0
+
